@@ -61,6 +61,12 @@ CHECKS["C16"] = dict(engine="SMT+XH",
     note=_SMT_NOTE + " Overlap conditions trust CrossHair, the plugin and the pandas Series model.",
     ref="DESIGN.md section 6 C16")
 
+CHECKS["C12"] = dict(
+    technique="bounded symbolic execution of the one-edit generators with a SYMBOLIC alphabet (CrossHair + z3): the yielded list must be duplicate-free and equal, as a set, to the naive single-edit set - one z3 formula per path",
+    text="levenshtein_neighbors / hamming_neighbors on a free string x (length <= 3, 4 thorough) and an alphabet of 1-3 symbolic pairwise-distinct letters (every alphabet of that size and every coincidence pattern between its letters and x's), plus the 20 concrete letters at |x| <= 1; next_nearest_neighbors against iterated naive edits; find_neighbor_pairs(_index), calculate_neighbor_numbers, isdist1, nndist_hamming against Levenshtein/Hamming distance terms.",
+    note=_XH_NOTE,
+    ref="DESIGN.md section 6 C12")
+
 NOT_APPLICABLE = {}
 
 def main():
